@@ -131,19 +131,15 @@ Theorem C16_named_constants :
        transaction_type_to_tealer_type (IntNum n) <> None /\ parse_line ("int " ++ string_of_N n) = Ok (Some (IInt (IANum n))).
 Proof. exact @named_txn_type_line. Qed.
 
-(* REFUTED (finding D10b): `method "sig"` prints without its quotes and does not parse back *)
-Theorem C16_method_roundtrip_refuted :
-  exists (l : string) (i : instr),
-         parse_line l = Ok (Some i) /\
-         parse_line (str_of_instr i) <> Ok (Some i) /\
-         l = ("method " ++ quoted "add(uint64,uint64)uint64")%string /\
-         str_of_instr i = "method add(uint64,uint64)uint64" /\ parse_line (str_of_instr i) = Err "ParseError: incorrect byte format".
-Proof. exact @roundtrip_method_refuted. Qed.
+(* `method "sig"` prints with its quotes and parses back (was finding D10b: printed without quotes; repaired) *)
+Theorem C16_method_roundtrip : forall body, body_ok body = true ->
+  parse_line (str_of_instr (IOther "Method" [PStr (quoted body)])) = Ok (Some (IOther "Method" [PStr (quoted body)])).
+Proof. exact @roundtrip_method. Qed.
 
-(* REFUTED (finding D26): a quoted byte string ending in an escaped backslash is rejected *)
-Theorem C16_quoted_backslash_refuted :
-  parse_line ("byte " ++ String dq ("a" ++ String bsl (String bsl (String dq "")))) = Err "ParseError: missing closing quote".
-Proof. exact @quoted_backslash_refuted. Qed.
+(* a quoted byte string ending in an escaped backslash is accepted (was finding D26: rejected; repaired) *)
+Theorem C16_quoted_backslash_accepted :
+  parse_line ("byte " ++ quoted "a\\") = Ok (Some (IOther "Byte" [PStr (quoted "a\\")])).
+Proof. exact @quoted_backslash_accepted. Qed.
 
 Print Assumptions C16_roundtrip_txna.
 Print Assumptions C16_roundtrip_gtxna.
@@ -153,5 +149,5 @@ Print Assumptions C16_roundtrip_bytecblock.
 Print Assumptions C16_bytes_parse_print_parse.
 Print Assumptions C16_unknown_verbatim.
 Print Assumptions C16_named_constants.
-Print Assumptions C16_method_roundtrip_refuted.
-Print Assumptions C16_quoted_backslash_refuted.
+Print Assumptions C16_method_roundtrip.
+Print Assumptions C16_quoted_backslash_accepted.
